@@ -106,6 +106,10 @@ func (tree *MutableTree) VersionExists(version int64) bool {
 
 // AvailableVersions returns all available versions in ascending order
 func (tree *MutableTree) AvailableVersions() []int {
+	if found, _, err := tree.ndb.getLatestVersion(); err == nil && !found {
+		// nothing has been saved yet, so no version (in particular not version 0) is available
+		return []int{}
+	}
 	firstVersion, err := tree.ndb.getFirstVersion()
 	if err != nil {
 		return nil
